@@ -11,8 +11,10 @@ Binding: replay on the REAL code (harness/cmd/repl), against an httptest remote 
           durablequeue with 2-block segments: the driver calls SendWrite itself, so every returned (wait, shouldRetry) is
           observed without sleeping; local writes are injected while a request is in flight (from the remote's handler);
           clock ticks age the segment files (Chtimes), the purge step is the purge case of run()
-  e2e     a selection of the same histories through the real run() loop (InitializeQueue / EnqueueData / CloseAll):
-          requests, their order, and that a timer-triggered retry never starts before the armed wait has elapsed
+  e2e     a selection of the same histories through the real run() loop (first batch already in the queue directory,
+          StartReplicationQueues / EnqueueData from the remote's handler / CloseAll): requests, their order, and that a
+          retry never starts before the armed wait has elapsed unless a local-write notification is pending (the spec's
+          trigger of that call is then "recv"; timer-triggered calls are held to the wait exactly)
   periodic  histories in which the 10 s in-scan ticker fires (the remote holds one request for 10.5 s); after the in-scan
             Advance the repaired code returns (0,true) and continues with a fresh scanner (finding F38, fixed in /repo)
 Compared exactly: the batches each call posts (bytes), what remains in the queue (drained from a copy of the directory),
@@ -59,15 +61,21 @@ def terminal_states(path, nbatches):
 
 def to_case(st, mode='steps', conc=0, segcap=2):
     return {'mode': mode, 'drop': st['cfg']['drop'], 'maxAge': st['cfg']['maxAge'], 'att0': st['cfg']['att0'],
-            'segCap': segcap, 'conc': conc, 'steps': st['hist']}
+            'pre': st['cfg']['pre'], 'segCap': segcap, 'conc': conc, 'steps': st['hist']}
 
 
 def e2e_ok(case, max_wait_ms, need_timer=True):
-    """History that the real run() loop follows deterministically without hooks: the only local write at idle is the very
-    first step (nothing else is pending then; the driver cannot see when a later SendWrite call returns, so a later
-    idle write would race with the loop); all other local writes arrive while a request is in flight (the remote's
-    handler makes them); a timer-triggered call happens only when no signal is pending; no clock steps; no timeouts
-    (a timed-out request may never reach the remote); total armed wait small."""
+    """History that the real run() loop follows deterministically without hooks.  run() makes a start-up pass over the
+    queue before it waits, and the driver can see neither when that pass ends nor when a later SendWrite call returns, so
+    a local write made by the driver itself would race with the loop (it may land before or after the pass: two different
+    spec histories).  Deterministic shape: the first batch is already in the queue directory when the manager starts
+    (StartReplicationQueues: the start-up pass posts it, no notification pending), every other local write arrives while
+    a request is in flight (the remote's handler makes it: the loop is provably inside a call then, and the buffered
+    notification is consumed after that call - including after the start-up pass); a timer-triggered call happens only
+    when no notification is pending; no clock steps; no timeouts (a timed-out request may never reach the remote); total
+    armed wait small."""
+    if case.get('pre', 0) < 1:
+        return False
     steps = case['steps']
     total = 0
     timer_calls = 0
@@ -75,8 +83,7 @@ def e2e_ok(case, max_wait_ms, need_timer=True):
         if s['a'] in ('tick', 'purge'):
             return False
         if s['a'] == 'enq':
-            if i != 0 or len(steps) < 2 or steps[1]['a'] != 'send' or steps[1]['trig'] != 'recv':
-                return False
+            return False
         if s['a'] == 'send':
             if any(p['r'] in ('timeout', 'reset') or p['tick'] for p in s['posts']):
                 return False
@@ -85,7 +92,9 @@ def e2e_ok(case, max_wait_ms, need_timer=True):
                     return False
                 total += steps[i - 1]['exp']['timer']
                 timer_calls += 1
-            if s['trig'] == 'recv' and i > 0 and steps[i - 1]['exp']['sig'] != 1:
+            if s['trig'] == 'recv' and (i == 0 or steps[i - 1]['exp']['sig'] != 1):
+                return False
+            if s['trig'] == 'startup' and i != 0:
                 return False
     return (timer_calls >= 1 or not need_timer) and total <= max_wait_ms
 
@@ -166,7 +175,7 @@ def run(ctx):
             last = beh[-1]
             if last['pc'] == 'idle' and last['hist']:
                 sim_cases.append(to_case(last, conc=len(sim_cases) % 8))
-    budget_gen = 1500 if quick else 20000
+    budget_gen = 6000 if quick else 20000
     budget_age = 400 if quick else 6000
     chosen_gen = vlib.sample_list(ctx.rng, gen_cases, budget_gen)
     chosen_age = vlib.sample_list(ctx.rng, age_cases, budget_age)
